@@ -7,6 +7,7 @@ pub mod c06;
 pub mod c07;
 pub mod c08;
 pub mod c11;
+pub mod c13;
 pub mod c15;
 pub mod c16;
 pub mod lsp_tiers;
@@ -27,6 +28,7 @@ fn table(id: &str) -> Option<(Run, Judge, &'static str, &'static [&'static str])
         "C07" => Some((c07::run, c07::judge, c07::RULE, c07::ASSUMPTIONS)),
         "C08" => Some((c08::run, c08::judge, c08::RULE, c08::ASSUMPTIONS)),
         "C11" => Some((c11::run, c11::judge, c11::RULE, c11::ASSUMPTIONS)),
+        "C13" => Some((c13::run, c13::judge, c13::RULE, c13::ASSUMPTIONS)),
         "C15" => Some((c15::run, c15::judge, c15::RULE, c15::ASSUMPTIONS)),
         "C16" => Some((c16::run, c16::judge, c16::RULE, c16::ASSUMPTIONS)),
         "C06" => Some((c06::run, c06::judge, c06::RULE, c06::ASSUMPTIONS)),
